@@ -214,7 +214,7 @@ func runUploads(h *H, prop string, n int) {
 	outcomes := map[string]int{}
 	for k := 0; k < n; k++ {
 		dim := g.intn(5) + 1
-		hasNames := g.intn(2) == 0
+		hasNames := g.intn(2) == 0 || k%16 == 9
 		names := g.peerNames(dim + g.intn(2))
 		id := func(i int) string {
 			if hasNames {
@@ -277,6 +277,10 @@ func runUploads(h *H, prop string, n int) {
 		hunch := strconv.Itoa(g.intn(100) + 1)
 		hp := &hunch
 		sel := g.intn(12)
+		emptyNames := false
+		if k%16 == 9 {
+			sel = 0
+		}
 		if k%20 == 7 {
 			// slow mixing: a directed ring with one pre-trusted peer at the lowest confidences — the error only
 			// shrinks by (1 - confidence/100) per iteration, so the run needs thousands of iterations
@@ -293,7 +297,10 @@ func runUploads(h *H, prop string, n int) {
 		// malformed uploads
 		switch sel {
 		case 0:
-			bad := g.pick("hunch-text", "hunch-big", "hunch-neg", "lt-1field", "lt-badlevel", "pt-unknown", "names-dup", "lt-bigger-than-names", "pt-empty-record")
+			bad := g.pick("hunch-text", "hunch-big", "hunch-neg", "lt-1field", "lt-badlevel", "pt-unknown", "names-dup", "lt-bigger-than-names", "pt-empty-record", "names-empty", "names-empty")
+			if k%16 == 9 {
+				bad = "names-empty"
+			}
 			g.count("malformed:" + bad)
 			switch bad {
 			case "hunch-text":
@@ -321,11 +328,42 @@ func runUploads(h *H, prop string, n int) {
 				}
 			case "pt-empty-record":
 				ptRecs = append(ptRecs, []string{""})
+			case "names-empty":
+				// a peer names part that is PRESENT but holds no record (zero bytes, or blank lines only), with
+				// trust files that use integer ids as uploads without names do
+				if hasNames {
+					toInt := map[string]string{}
+					for i, nm := range names {
+						if _, dup := toInt[nm]; !dup {
+							toInt[nm] = strconv.Itoa(i)
+						}
+					}
+					for _, r := range ltRecs {
+						for f := 0; f < len(r) && f < 2; f++ {
+							if v, ok := toInt[r[f]]; ok {
+								r[f] = v
+							}
+						}
+					}
+					for _, r := range ptRecs {
+						if v, ok := toInt[r[0]]; ok && len(r) > 0 {
+							r[0] = v
+						}
+					}
+					nameRecs = nil
+					emptyNames = true
+				}
 			}
 		}
 		var nb []byte
 		if hasNames {
 			nb = csvBytes(nameRecs)
+			if emptyNames {
+				nb = []byte{}
+				if g.intn(2) == 0 {
+					nb = []byte("\n\n")
+				}
+			}
 		}
 		lb, pb := csvBytes(ltRecs), csvBytes(ptRecs)
 		code, page, oc := env.upload(nb, lb, pb, hp, wd)
